@@ -28,33 +28,50 @@ theorem leftNest_erase (sc : Scalar) (op : BinOp) (u : Int) (s : String) (hs : s
       have := ih (.bin op a b)
       simpa [eraseC] using this
 
+theorem callOK_name {sc : Scalar} {f : String} {args : List Expr} (h : callOK sc f args = true) :
+    cMathName sc (normL args) f = cMathName sc args f := by
+  simp only [callOK, Bool.and_eq_true, beq_iff_eq] at h
+  simp only [cMathName, h.2]
+
 mutual
-theorem eraseC_norm (sc : Scalar) : ∀ e : Expr, eraseC sc (norm e) = eraseC sc e
-  | .litF re im true => by simp [norm, eraseC, eraseReal_normReal]
-  | .litF re im false => by simp [norm, eraseC, eraseReal_normReal]
-  | .litI v => by
+theorem eraseC_norm (sc : Scalar) : ∀ e : Expr, wfC sc e = true → eraseC sc (norm e) = eraseC sc e
+  | .litF re im true, _ => by simp [norm, eraseC, eraseReal_normReal]
+  | .litF re im false, _ => by simp [norm, eraseC, eraseReal_normReal]
+  | .litI v, _ => by
     by_cases h : v < 0
     · have h1 : ¬ (-v < 0) := by omega
       simp [norm, eraseC, h]
       omega
     · simp [norm, eraseC, h]
-  | .sym n dt => by simp [norm]
-  | .mi s z gi => by simp [norm, eraseC, eraseC_norm sc gi]
-  | .neg a => by simp [norm, eraseC, eraseC_norm sc a]
-  | .not a => by simp [norm, eraseC, eraseC_norm sc a]
-  | .bin op a b => by simp [norm, eraseC, eraseC_norm sc a, eraseC_norm sc b]
-  | .sum args => by
+  | .sym n dt, _ => by simp [norm]
+  | .mi s z gi, h => by simp only [wfC] at h; simp [norm, eraseC, eraseC_norm sc gi h]
+  | .neg a, h => by simp only [wfC] at h; simp [norm, eraseC, eraseC_norm sc a h]
+  | .not a, h => by simp only [wfC] at h; simp [norm, eraseC, eraseC_norm sc a h]
+  | .bin op a b, h => by
+    simp only [wfC, Bool.and_eq_true] at h
+    simp [norm, eraseC, eraseC_norm sc a h.1, eraseC_norm sc b h.2]
+  | .sum args, h => by
+    simp only [wfC, Bool.and_eq_true] at h
     simp only [norm, eraseC]
-    rw [leftNest_erase sc .add 0 "0" (by decide) (by decide), eraseLC_norm sc args]
-  | .prod args => by
+    rw [leftNest_erase sc .add 0 "0" (by decide) (by decide), eraseLC_norm sc args h.2]
+  | .prod args, h => by
+    simp only [wfC, Bool.and_eq_true] at h
     simp only [norm, eraseC]
-    rw [leftNest_erase sc .mul 1 "1" (by decide) (by decide), eraseLC_norm sc args]
-  | .call f dt args => by simp [norm, eraseC, eraseLC_norm sc args]
-  | .idx arr dt ix => by simp [norm, eraseC, eraseLC_norm sc ix]
-  | .cond c t f => by simp [norm, eraseC, eraseC_norm sc c, eraseC_norm sc t, eraseC_norm sc f]
-theorem eraseLC_norm (sc : Scalar) : ∀ l : List Expr, eraseLC sc (normL l) = eraseLC sc l
-  | [] => by simp [normL, eraseLC]
-  | a :: as => by simp [normL, eraseLC, eraseC_norm sc a, eraseLC_norm sc as]
+    rw [leftNest_erase sc .mul 1 "1" (by decide) (by decide), eraseLC_norm sc args h.2]
+  | .call f dt args, h => by
+    simp only [wfC, Bool.and_eq_true] at h
+    simp only [norm, eraseC, eraseLC_norm sc args h.2, callOK_name h.1.1]
+  | .idx arr dt ix, h => by
+    simp only [wfC, Bool.and_eq_true] at h
+    simp [norm, eraseC, eraseLC_norm sc ix h.2]
+  | .cond c t f, h => by
+    simp only [wfC, Bool.and_eq_true] at h
+    simp [norm, eraseC, eraseC_norm sc c h.1.1, eraseC_norm sc t h.1.2, eraseC_norm sc f h.2]
+theorem eraseLC_norm (sc : Scalar) : ∀ l : List Expr, wfLC sc l = true → eraseLC sc (normL l) = eraseLC sc l
+  | [], _ => by simp [normL, eraseLC]
+  | a :: as, h => by
+    simp only [wfLC, Bool.and_eq_true] at h
+    simp [normL, eraseLC, eraseC_norm sc a h.1, eraseLC_norm sc as h.2]
 end
 
 end Ffcx.LNodes.Fmt
